@@ -121,23 +121,23 @@ int main(void) {
             int mode = b[0] == 'r' ? CGIO_MODE_READ : b[0] == 'w' ? CGIO_MODE_WRITE : CGIO_MODE_MODIFY;
             err = cgio_open_file(a, mode, CGIO_FILE_ADF, &cgn);
             if (err == 0) err = cgio_get_root_id(cgn, &cgroot);
-            printf("cgopen err=%d\n", err);
+            printf("cgopen err=%d\n", err == 0 ? -1 : err);
         } else if (sscanf(line, "cgread %1023s %63s %lld", a, b, &v[0]) == 3) {
             double id;
             memset(buf, 0xA5, (size_t)v[0]);
             err = cgio_get_node_id(cgn, cgroot, a, &id);
             if (err == 0) err = cgio_read_all_data_type(cgn, id, b, buf);
-            printf("r err=%d ", err); puthex(buf, (size_t)v[0]); putchar('\n');
+            printf("r err=%d ", err == 0 ? -1 : err); puthex(buf, (size_t)v[0]); putchar('\n');
         } else if (sscanf(line, "cgwrite %1023s %63s %lld %n", a, b, &v[0], &off) >= 3) {
             double id; cgsize_t dims[1]; dims[0] = (cgsize_t)v[0];
             unhex(line + off, buf);
             err = cgio_create_node(cgn, cgroot, a, &id);
             if (err == 0) err = cgio_set_dimensions(cgn, id, b, 1, dims);
             if (err == 0) err = cgio_write_all_data(cgn, id, buf);
-            printf("w err=%d\n", err);
+            printf("w err=%d\n", err == 0 ? -1 : err);
         } else if (strncmp(line, "cgclose", 7) == 0) {
             err = cgio_close_file(cgn); cgn = -1;
-            printf("cgclose err=%d\n", err);
+            printf("cgclose err=%d\n", err == 0 ? -1 : err);
         } else if (line[0] == '\n') {
         } else printf("badline\n");
     }
